@@ -144,6 +144,7 @@ func runC02(c *core.Ctx) {
 	c02MissCodes(c, reg)
 	c02CheckDescriptorCodes(c)
 	c02ReferenceChecks(c, reg)
+	memManifestCheckedBeforeStore(c, "C02.R2")
 	c05SortedIn(c, "C02.R3", []string{"ocimem"})
 	// R4: a failed operation leaves tags/manifests/blobs untouched (a rejected
 	// tagged push must not bind or move the tag).
